@@ -1,10 +1,12 @@
 SPECIFICATION Spec
 CONSTANTS MaxPre = 3 MaxN = 4
-  PreAlphabet <- AlphaSmall
+  PreAlphabet <- AlphaDeep
   Accs <- AccsSmall
   Posts <- PostsSmall
-  Pairs = {TRUE}
+  FlowKinds = {"ctx"}
   Drivers = {"run", "fill", "split"}
+  Places = {"alone", "middle"}
+  CopyMode = "per_branch"
   Bufs <- BufQuick
 INVARIANT DriversAgree
 INVARIANT FillReaches
